@@ -1,6 +1,12 @@
 /-
 C16 — internalising refs yields a self-contained, equivalent document.
-Property theorems only (models: KinModel/RefName.lean, KinModel/Internalize.lean).
+Property theorems only (models: KinModel/RefName.lean — the name resolver; KinModel/Internalize.lean — the descent of
+InternalizeRefs on the abstraction of a loaded document; helper lemmas: Lemmas/C16Descent.lean, C16Inv.lean, C16Table.lean,
+concrete heaps: Lemmas/C16Heaps.lean).
+Sections: resolver loops / totality / alphabet / injectivity (partial) and collision witnesses; translator tables;
+the flag; the document after internalisation — (i) all_refs_internal, (ii) rewritten_refs_resolve_partial,
+(iii) positions_outside_external_unchanged + root_components_kept, spec_holds_partial and the completeness of the
+exclusion classes; witnesses of every open finding, regressions of the repaired ones, non-vacuity examples.
 -/
 import KinModel.Internalize
 import KinModel.Lemmas.C16Table
@@ -298,9 +304,10 @@ theorem witness_self_match :
       (wholeFile "responses" "ext.json" "ext.json") = .name "T1".toList false := by
   decide
 
-/-- when the recorded RefPath is the root document itself and the reference has no fragment (what the loader records
-for whole-document link/example/securityScheme references made in the root), the generated name is EMPTY -/
-theorem witness_empty_name :
+/-- a reference whose recorded RefPath is the root document itself, without fragment, is given the EMPTY name. Until
+0a3c233 the loader recorded exactly that for whole-document link/example/securityScheme references made in the root
+(former finding F-C16-4; `regression_whole_document_link_name` below); the resolver itself is unchanged -/
+theorem resolver_empty_name_for_root_path :
     defaultName (rootAt "openapi.json") (wholeFile "links" "common/l.json" "openapi.json") = .name [] false := by
   decide
 
@@ -416,6 +423,18 @@ the component table only grows, an entry is overwritten (callbacks) only by cont
 theorem names_hold_partial (h : Heap) (s : St) (hd : internalize h = .done s) (hnc : NameCollision s = false)
     (ev : Ev) (hev : ev ∈ s.log) (nm : Str) (hn : ev.name? = some nm) :
     Holds h s (cellOf h ev.cell).k nm (valOf h ev.cell) := run_invNames h s hd hnc ev hev nm hn
+
+/-- **distinct targets are not merged** (the last sentence of the property), under the hypothesis that excludes F-C16-1:
+two references that were given the same component name designate content of the same class -/
+theorem same_name_same_content_partial (h : Heap) (s : St) (hd : internalize h = .done s) (hnc : NameCollision s = false)
+    (e1 e2 : Ev) (h1 : e1 ∈ s.log) (h2 : e2 ∈ s.log) (nm : Str) (hn1 : e1.name? = some nm) (hn2 : e2.name? = some nm)
+    (hk : (cellOf h e1.cell).k = (cellOf h e2.cell).k) :
+    ccOf h (valOf h e1.cell) = ccOf h (valOf h e2.cell) := by
+  obtain ⟨a, ha, hca⟩ := run_invNames h s hd hnc e1 h1 nm hn1
+  obtain ⟨b, hb, hcb⟩ := run_invNames h s hd hnc e2 h2 nm hn2
+  rw [hk, hb] at ha
+  cases ha
+  rw [← hca, ← hcb]
 
 /-- **(iii) positions not behind an external reference are unchanged.** A cell that add<Kind>ToSpec never met with the
 parent-is-external flag and whose own text is not external keeps its text (or is cleared: the top level of a root
